@@ -488,6 +488,18 @@ def gen_cases(rng, tier):
               '[1 <</K 999999999999999999999999999999999999999999.5>>] TJ', 'q 340282356779733661637539395458142568447.999 w Q',
               'BI /W 1 /H 1 /CS /Gray /BPC 8 /X 1' + '0' * 39 + '. ID x EI']:
         cases.append((L('dec', xb(t.encode())), {'kind': 'dec-real-overflow', 'nontrivial': True}))
+    # open finding C14-keyword-residual (see classify): a keyword glued to a regular byte that is no operator character is
+    # returned as an operator that IS the keyword / a lone BI ...
+    for t in [b'null1 x', b'true\xff cm', b'BI1 ', b'1 false.5 x', b'q true2 1 0 0 rg Q', b'/N null#20 Tf', b'(a) false- Tj',
+              b'BI\x80 /W 1 ID x EI', b'[1] null+1 m']:
+        cases.append((L('dec', xb(t)), {'kind': 'dec-keyword-residual', 'nontrivial': True}))
+    # ... and the boundary outside the class, which must hold: the keyword followed by a delimiter, white space (every kind),
+    # an operator character, end of input behind an operator; inside a name, a string, a comment, an array, image data
+    for t in [b'null(a) Tj', b'true/N gs', b'false[1]TJ', b'null<41>Tj', b'true<</K 1>>x', b'null\x00x', b'true\x0cx', b'false\tx',
+              b'null\rx', b'nullx', b'true* 1 BI*', b'BIx', b"false' null\"", b'/null1 gs', b'(true2 BI1) Tj', b'% null1\nq',
+              b'[null true false] x', b'[null1] x', b'<</K true2>> x', b'BI /W 5 /H 1 /CS /G /BPC 8 ID null1 EI Q',
+              b'BI /W 5 /H 1 /CS /Gray /BPC 8 ID null1 EI Q', b'1 null%c\n x', b'true', b'x null']:
+        cases.append((L('dec', xb(t)), {'kind': 'dec-keyword-boundary', 'nontrivial': True}))
     # the float assumptions of the second-sentence theorem (canon_spec) and the model's real syntax / overflow bound
     for t in real_texts(rng, tier):
         cases.append((L('real', xb(t.encode())), {'kind': 'real', 'nontrivial': True}))
@@ -628,8 +640,33 @@ def split_top(t):
 NUMERAL = re.compile(rb'(?<![0-9.])([0-9]+)\.')
 
 
-def known_class_of(line):
-    """mirror of known_class in coq/Proofs/ContentProofs.v (enc cases) and of overflow_op in coq/Proofs/DecodeRtProofs.v (dec
+# C14-keyword-residual, necessary condition on the bytes: one of the keywords glued to a regular byte (no white space, no
+# delimiter) that is no operator character (letters, * ' ").  Only then do the keyword parsers (whole tokens since 93a8a25)
+# refuse the text while the operator parser takes it.
+KW_GLUED = re.compile(rb'(?:null|true|false|BI)(?![A-Za-z*\'"\x00\t\n\x0c\r ()<>\[\]{}/%])(?s:.)')
+KW_RESIDUAL_OPS = {k.encode().hex() for k in KEYWORDS}
+
+
+def first_decode_ops(out):
+    """the operations of the first decode in a (res2 (ops (op xOP operand...)...) ...) result: [(operator hex, n operands)]"""
+    if not out or not out.startswith('(res2 (ops'):
+        return []
+    body = out[len('(res2 '):first_sx(out, len('(res2 '))]
+    res = []
+    for o in split_top(body[len('(ops'):-1].strip()):
+        items = split_top(o[1:-1])
+        if len(items) >= 2 and items[0] == 'op':
+            res.append((items[1][1:], len(items) - 2))
+    return res
+
+
+def kw_residual(ops):
+    """mirror of kw_residual in coq/Proofs/DecodeRtProofs.v: the operator is exactly null / true / false, or a BI without operands"""
+    return any(op in KW_RESIDUAL_OPS or (op == b'BI'.hex() and n == 0) for op, n in ops)
+
+
+def known_class_of(line, model_out=None):
+    """mirror of known_class in coq/Proofs/ContentProofs.v (enc cases) and of known_input in coq/Proofs/DecodeRtProofs.v (dec
     cases), on the input: returns a finding id or None"""
     m = re.match(r'\((?:dec|decv) x([0-9a-f]*)', line)
     if m:
@@ -637,6 +674,11 @@ def known_class_of(line):
         body = bytes.fromhex(m.group(1))
         if any(int(t) >= F32_INF_FROM for t in NUMERAL.findall(body)):
             return 'C14-real-overflow'
+        # C14-keyword-residual: the input decodes (decode_content of the extracted model = known_input of the theorem) to an
+        # operation whose operator is a keyword / a lone BI; the bytes must show the glued keyword.  Without a model
+        # output (runner broken) the condition on the bytes alone.
+        if KW_GLUED.search(body) and (model_out is None or kw_residual(first_decode_ops(model_out))):
+            return 'C14-keyword-residual'
         return None
     if not line.startswith('(enc (ops'):
         return None
@@ -655,7 +697,7 @@ def known_class_of(line):
 
 
 def classify(line, tags, model_out, impl_out, verdict):
-    return known_class_of(line)
+    return known_class_of(line, model_out)
 
 
 SPEC = {
